@@ -76,7 +76,7 @@ func parent() int {
 	if shards < 1 {
 		shards = 1
 	}
-	deadline := env("VERIF_DEADLINE_S", map[string]string{"quick": "420", "thorough": "5400"}[tier])
+	deadline := env("VERIF_DEADLINE_S", map[string]string{"quick": "420", "thorough": "3600"}[tier])
 	start := time.Now()
 	tmp, err := os.MkdirTemp("", "verif-"+id+"-")
 	if err != nil {
@@ -151,8 +151,8 @@ func parent() int {
 		tot.Pruned += sf.Pruned
 		tot.Evaluations += sf.Evaluations
 		tot.Outcomes += sf.Outcomes
-		if sf.MaxDev > tot.MaxDev {
-			tot.MaxDev = sf.MaxDev
+		if i == 0 || sf.MaxDev < tot.MaxDev {
+			tot.MaxDev = sf.MaxDev // completed by every shard
 		}
 		tot.Capped = tot.Capped || sf.Capped
 		for k, v := range sf.Cov {
@@ -249,7 +249,7 @@ func parent() int {
 		cov["distinct_outcomes"] = tot.Outcomes
 		cov["alphabet"] = chk.Alphabet
 		if tot.Capped {
-			cov["cap"] = "internal deadline of " + deadline + " s reached; deviation bound not completed"
+			cov["cap"] = fmt.Sprintf("internal deadline of %s s reached while exploring deviation bound %d; every bound up to %d was completed (max_deviations_completed)", deadline, tot.MaxDev+1, tot.MaxDev)
 		}
 	}
 	if len(tot.Notes) > 0 {
@@ -359,23 +359,39 @@ func TestWorker(t *testing.T) {
 			chk.Grid(t, tier, shard, shards, c)
 		}
 		if chk.Scenarios != nil {
-			bound := chk.Bound(tier)
-			if v, err := strconv.Atoi(os.Getenv("VERIF_BOUND")); err == nil {
-				bound = v
+			// the deviation bound is iterated: the thorough tier first completes the quick tier's bound
+			// and then deepens, so that a run stopped by its deadline still reports a completed bound
+			hi := chk.Bound(tier)
+			lo := hi
+			if tier == "thorough" && chk.Bound("quick") < hi {
+				lo = chk.Bound("quick")
 			}
-			for i, s := range chk.Scenarios(tier) {
-				if only := os.Getenv("VERIF_SCENARIO"); only != "" && !strings.HasPrefix(s.Name, only) {
-					continue
-				}
-				attach(chk, s)
-				o := h.HOpts{Bound: bound, Shard: shard, Shards: shards, Prune: chk.Prune, Nontrivial: chk.Nontrivial, SampleMax: 2}
-				if chk.ShardByScenario {
-					if i%shards != shard {
+			if v, err := strconv.Atoi(os.Getenv("VERIF_BOUND")); err == nil {
+				lo, hi = v, v
+			}
+			c.R.MaxDev = -1
+			for bound := lo; bound <= hi && !c.R.Capped; bound++ {
+				c.ResetStates()
+				for i, s := range chk.Scenarios(tier) {
+					if only := os.Getenv("VERIF_SCENARIO"); only != "" && !strings.HasPrefix(s.Name, only) {
 						continue
 					}
-					o.Shard, o.Shards = 0, 1
+					attach(chk, s)
+					o := h.HOpts{Bound: bound, Shard: shard, Shards: shards, Prune: chk.Prune, Nontrivial: chk.Nontrivial, SampleMax: 2}
+					if chk.ShardByScenario {
+						if i%shards != shard {
+							continue
+						}
+						o.Shard, o.Shards = 0, 1
+					}
+					h.ExploreScenario(t, s, o, c)
 				}
-				h.ExploreScenario(t, s, o, c)
+				if !c.R.Capped {
+					c.R.MaxDev = bound
+				}
+			}
+			if c.R.MaxDev < 0 {
+				c.R.MaxDev = 0
 			}
 			// determinism rule: every reported witness must replay identically, twice
 			for i := range c.R.Found {
